@@ -345,14 +345,15 @@ class Dmn(Family):
                 # an ADD_MEM_REG that overlaps an existing region in guest-physical space under a user range of its own
                 r0 = rng.choice(table)
                 bad = [r0[0], r0[1], 0x7f0000800000 + 0x10000 * rng.below(4), r0[3], r0[4]]
-            if table and rng.chance(1, 2):
+            which = rng.below(4) if table else 3
+            if which == 0:
                 # ... or a SET_MEM_TABLE that is refused only after its first region has been looked at: the first region
                 # describes the guest range of an accepted region under another user range, the second one overlaps it
                 r0 = rng.choice(table)
                 ua2 = 0x7f0000a00000 + 0x10000 * rng.below(4)
                 bad = [r0[0], r0[1], ua2, r0[3], r0[4]]
                 steps.append(st("set_mem_table", [], b"", [bad, [r0[0] + 0x1000 if r0[1] > 0x1000 else r0[0], 0x1000, ua2 + 0x100000, 0, r0[4]]]))
-            elif table and rng.chance(1, 2):
+            elif which == 1:
                 # ... or a REM_MEM_REG that names a mapped region with another size: refused, the region stays
                 r0 = rng.choice(table)
                 steps.append(st("rem_mem", [r0[0], r0[1] + 0x1000 if rng.chance(1, 2) else max(0x800, r0[1] - 0x800), r0[2], r0[3], r0[4]]))
@@ -594,6 +595,10 @@ class Dmn(Family):
             nq = 1 + rng.below(6)
             masks = [rng.below(1 << (nq + 2)) for _ in range(1 + rng.below(3))]
             out.append((self.routing_case(rng, nq, masks, rng.below(4)), "routing-random"))
+        # workers whose mask names no existing queue (appended last: the cases above keep their random choices)
+        for nq, masks in ((2, [4, 1, 2]), (2, [0, 3]), (3, [8, 7]), (3, [0, 1, 6]), (2, [4, 2, 1])):
+            for kind in (0, 1, 2, 3):
+                out.append((self.routing_case(rng, nq, masks, kind), "routing-empty-worker"))
         return out
 
     def nontrivial(self, args, obs):
